@@ -150,6 +150,9 @@ func (eng *Engine) Verify(con *Contract) (*VC, error) {
 		vc.assumeWF(v)
 		fr.params = append(fr.params, v)
 		vc.noteRefs(v)
+		if v.K == KPtr {
+			vc.assumeRaw(Or(Eq(v.T, IntLit(0)), Select(vc.heapInit("G.alloc", ArrSort(SInt, SBool)), v.T)))
+		}
 	}
 	for _, fv := range fn.FreeVars {
 		v := vc.freshVal(fv.Type(), "fv."+fv.Name())
@@ -193,13 +196,7 @@ func (eng *Engine) Verify(con *Contract) (*VC, error) {
 		penv.old = pre
 		bindResultNames(penv.vars, fn.Signature, e.results)
 		for i, cl := range con.Ensures {
-			hyps, goal, err := penv.goalParts(cl.Expr)
-			if err != nil {
-				vc.specError(cl, err)
-				continue
-			}
-			vc.addObl(&Obligation{Name: fmt.Sprintf("ensures[%s]@ret%d", clauseLabel(cl, i), e.ord), Kind: "ensures", Tags: cl.Tags, Goal: goal, Hyps: hyps,
-				Guard: e.guard, Src: "ensures " + cl.Src, Where: fr.posString(e.instr.Pos())})
+			vc.addGoals(penv, cl, fmt.Sprintf("ensures[%s]@ret%d", clauseLabel(cl, i), e.ord), "ensures", e.guard, "ensures ", fr.posString(e.instr.Pos()))
 		}
 		fr.frameCheck(e, pre, penv)
 	}
@@ -273,52 +270,7 @@ func (f *Frame) frameCheck(e exitInfo, pre *State, penv *SpecEnv) {
 			}
 		}()
 	}
-	for _, k := range sortedKeys(boolKeys(e.st.H)) {
-		cur := e.st.H[k]
-		init := smtName(k) + "@0"
-		if cur.S == init {
-			continue
-		}
-		if strings.HasPrefix(k, "G.") && !strings.Contains(k[2:], ".") {
-			// ghost global: must be listed
-			ok := false
-			for range allowed[k] {
-				ok = true
-			}
-			if !ok {
-				vc.addObl(&Obligation{Name: fmt.Sprintf("frame[%s]@ret%d", k, e.ord), Kind: "frame", Goal: Eq(cur, Term{init, cur.Sort}), Guard: e.guard,
-					Src: "ghost " + k + " is not in modifies, so it must be unchanged", Where: f.posString(e.instr.Pos())})
-			}
-			continue
-		}
-		whole := false
-		for _, l := range allowed[k] {
-			if l.whole {
-				whole = true
-			}
-		}
-		if whole {
-			continue
-		}
-		if !strings.HasPrefix(string(cur.Sort), "(Array ") {
-			continue
-		}
-		i := vc.freshConst("frame.i", idxSort(cur.Sort))
-		var hyps []Term
-		for _, l := range allowed[k] {
-			if len(l.idx) > 0 {
-				hyps = append(hyps, Ne(i, l.idx[0]))
-			}
-		}
-		if idxSort(cur.Sort) == SInt {
-			for _, n := range vc.news {
-				hyps = append(hyps, Ne(i, n))
-			}
-		}
-		goal := Eq(Select(cur, i), Select(Term{init, cur.Sort}, i))
-		vc.addObl(&Obligation{Name: fmt.Sprintf("frame[%s]@ret%d", k, e.ord), Kind: "frame", Goal: goal, Hyps: hyps, Guard: e.guard,
-			Src: "only locations listed in modifies (or freshly allocated) may differ in " + k, Where: f.posString(e.instr.Pos())})
-	}
+	f.frameObls(e.st, pre, allowed, fmt.Sprintf("@ret%d", e.ord), e.guard, f.posString(e.instr.Pos()))
 }
 
 func boolKeys(m map[string]Term) map[string]bool {
